@@ -96,7 +96,9 @@ CopyOneResolved(S, sp, srcTop, D, r) ==
      LET D0 == pre.D
          destExists == r.dp = <<>> \/ r.dp \in DOMAIN D0
          destIsDir == r.dp = <<>> \/ (destExists /\ D0[r.dp].e.t = "dir")
-         inside == (~r.contents /\ srcDir /\ destExists) \/ (~srcDir /\ destExists /\ destIsDir)
+         \* a source lands inside the destination only if that is a directory (a directory source only when
+         \* directory-contents mode is off); any other entry there is an obstacle (conflict, or replaced)
+         inside == destIsDir /\ (~r.contents \/ ~srcDir)
          final == IF inside /\ sp # <<>> THEN Append(r.dp, Last(sp)) ELSE r.dp
          \* parents of the final path (for a new directory that receives the contents: the path itself)
          upto == IF r.contents /\ srcDir /\ ~destExists THEN final ELSE Parent(final)
@@ -110,11 +112,12 @@ CopyOne(S, sp, srcTop, D, r0) ==
   ELSE CopyOneResolved(S, sp, srcTop, D, [r0 EXCEPT !.dp = res.p])
 
 \* The one shape whose repetition is a different request by the statement's own placement rule:
-\* a source directory copied (not in contents mode) to a destination that does not exist yet
-\* creates it; the next call finds an existing directory and lands inside it.
+\* a source directory copied (not in contents mode) to a destination that does not exist yet (or
+\* holds a non-directory that always-replace removes) creates it; the next call finds an existing
+\* directory and lands inside it.
 PlacementFlips(srcTop, D, r0) ==
   LET res == ResolvePath(EntriesOf(D), r0.dp) IN
-  res.ok /\ srcTop.t = "dir" /\ ~r0.contents /\ ~(res.p = <<>> \/ res.p \in DOMAIN D)
+  res.ok /\ srcTop.t = "dir" /\ ~r0.contents /\ ~(res.p = <<>> \/ (res.p \in DOMAIN D /\ D[res.p].e.t = "dir"))
 
 \* wildcard sources: the union of the matches, applied in walk order
 RECURSIVE CopyManyResolved(_, _, _, _)
